@@ -72,6 +72,10 @@ def norm_write_path(path, value_fn="serialize_value"):
             continue
         if k == "again":
             out.append("*")
+        elif k == "loop-open":
+            out.append("(")
+        elif k == "loop-close":
+            out.append(")*")
         elif k == "call":
             out.append("<VALUE>" if t[1].endswith(value_fn) else "<%s>" % t[1].split("::")[-1])
         elif k == "bytes":
@@ -89,6 +93,68 @@ def norm_write_path(path, value_fn="serialize_value"):
             else:
                 out.append("%s(%s)" % (k, sym(role)))
     return " ".join(out)
+
+
+_CONST_TOK = re.compile(r"^(u16|u24|u32|u64|i16|i32|i64)(be|le)=(-?\d+)$")
+
+
+def flatten_consts(path_str):
+    """constants of multi-byte fields as their bytes, so that  u16be=0  and  u8=0 u8=0  are the same output"""
+    out = []
+    for tok in path_str.split(" "):
+        m = _CONST_TOK.match(tok)
+        if not m:
+            out.append(tok)
+            continue
+        n = {"u16": 2, "i16": 2, "u24": 3, "u32": 4, "i32": 4, "u64": 8, "i64": 8}[m.group(1)]
+        v = int(m.group(3)) % (1 << (8 * n))
+        bs = [(v >> (8 * i)) & 0xFF for i in range(n)]
+        if m.group(2) == "be":
+            bs.reverse()
+        out.extend("u8=%d" % b for b in bs)
+    return " ".join(out)
+
+
+def canon_loops(paths):
+    paths = [flatten_consts(p) for p in paths]
+    return _canon_loops(paths)
+
+
+def _canon_loops(paths):
+    """one canonical form for repetition: the pair of alternatives  P S  (no iteration) and  P B * S  (the loop body once, then the
+    back edge) becomes  P ( B )* S, which is also what an internal iteration (for_each with a closure) is printed as"""
+    paths = sorted(set(paths))
+    out = set(paths)
+    for lp in paths:
+        toks = lp.split(" ")
+        if "*" not in toks:
+            continue
+        star = toks.index("*")
+        for zp in paths:
+            z = zp.split(" ") if zp else []
+            if "*" in z or "(" in z:
+                continue
+            # z = prefix + suffix with lp = prefix + body + * + suffix
+            suffix = toks[star + 1:]
+            if len(z) < len(suffix) or (suffix and z[len(z) - len(suffix):] != suffix):
+                continue
+            prefix = z[:len(z) - len(suffix)]
+            if toks[:len(prefix)] != prefix or len(prefix) >= star:
+                continue
+            body = toks[len(prefix):star]
+            out.discard(lp)
+            out.discard(zp)
+            out.add(" ".join(prefix + ["("] + body + [")*"] + suffix))
+            break
+    # an alternative that is the loop form with the body unrolled once or twice adds nothing
+    for lp in list(out):
+        toks = lp.split(" ")
+        if "(" in toks and ")*" in toks:
+            a, b = toks.index("("), toks.index(")*")
+            prefix, body, suffix = toks[:a], toks[a + 1:b], toks[b + 1:]
+            for k in (1, 2):
+                out.discard(" ".join(prefix + body * k + suffix))
+    return sorted(out)
 
 
 def encoder_functions(env, rep, rule):
@@ -135,8 +201,8 @@ def check_encoder_grammar(env, rep, rule, spec):
         b = body_by_pretty(prog, fnp)
         rep.fn(b.key)
         ex = grammar.emitted(env, b.key)
-        got = sorted({norm_write_path(p) for p in grammar.ok_paths(ex)})
-        want = sorted(enc["alternatives"])
+        got = canon_loops({norm_write_path(p) for p in grammar.ok_paths(ex)})
+        want = canon_loops(enc["alternatives"])
         n += 1
         if ex.unmodelled:
             rep.cannot_analyse(rule, "encoder:%s" % variant, "%s writes to the output through %s, which the grammar extractor does not model" % (fnp, ex.unmodelled[0][0]), ex.unmodelled[0][1])
@@ -161,7 +227,17 @@ def marker_dispatch(env, rep, rule):
         rep.anchor_missing(rule, "rml_amf0 deserialization::read_next_value (marker dispatch of the decoder)")
         return None
     rep.fn(rnv.key)
-    ex = grammar.reads(env, rnv.key, all_local_calls=True)
+    # helpers that do not touch the input (a depth check, ...) are followed in place; everything that reads stays a call
+    def reads_input(cb):
+        for i in range(1, cb.arg_count + 1):
+            t = cb.locals[i]["t"]
+            while t.get("k") in ("ref", "ptr"):
+                t = t["to"]
+            if t.get("k") == "param" or "Cursor<" in t.get("s", "") or t.get("s") == "dyn std::io::Read":
+                return True
+        return False
+    ex = grammar.reads(env, rnv.key, all_local_calls=True, inline=True,
+                       inline_pred=lambda cb, t: not reads_input(cb) and "Amf0Value" not in cb.locals[0]["t"].get("s", ""))
     table = {}
     for p in ex.paths:
         sig = [t for t in p if not is_io_plumbing(t)]
@@ -188,7 +264,7 @@ def marker_dispatch(env, rep, rule):
     return table, ex
 
 
-def norm_read_path(path):
+def norm_read_path(path, structure_only=False):
     out = []
     last_read_site = None
     for t in path:
@@ -207,6 +283,8 @@ def norm_read_path(path):
             out.append("*")
             break       # everything after the first loop mark repeats the body
         elif k == "when" and not is_io_plumbing(t):
+            if structure_only:
+                continue
             if t[1].startswith("discr(call(deserialization::"):
                 continue
             out.append("[%s=%s]" % (re.sub(r"call\(ReadBytesExt::read_(u\d+)\) as Ok\.0", r"\1", t[1]), t[2]))
@@ -220,14 +298,17 @@ def returns_of(path):
 DEC_EXPECT = {
     # function -> allowed canonical Ok-path read sequences, and which must be present
     "parse_number": (["f64be"], ["f64be"]),
-    "parse_bool": (["u8 [(u8 Ne 0)=0]", "u8 [(u8 Ne 0)=other:0]", "u8 [(u8 Eq 0)=0]", "u8 [(u8 Eq 0)=other:0]", "u8 [u8=0]", "u8 [u8=other:0]"], None),
+    "parse_bool": (["u8", "u8 [(u8 Ne 0)=0]", "u8 [(u8 Ne 0)=other:0]", "u8 [(u8 Eq 0)=0]", "u8 [(u8 Eq 0)=other:0]", "u8 [u8=0]", "u8 [u8=other:0]"], None),
     "parse_string": (["u16be exact:prev"], ["u16be exact:prev"]),
     "parse_null": ([""], [""]),
     "parse_undefined": ([""], [""]),
     "parse_ecma_array": (["u32be <parse_object>"], ["u32be <parse_object>"]),
     "parse_object": (["<parse_object_property>", "<parse_object_property> *"], ["<parse_object_property>", "<parse_object_property> *"]),
-    "parse_strict_array": (["u32be", "u32be <VALUE>", "u32be <VALUE> *"], ["u32be", "u32be <VALUE> *"]),
+    "parse_strict_array": (["u32be ( <VALUE> )*"], ["u32be ( <VALUE> )*"]),
 }
+
+
+PARSER_INLINE = None
 
 
 def check_decoder(env, rep, rule, spec):
@@ -255,10 +336,16 @@ def check_decoder(env, rep, rule, spec):
                 k = int(x)
                 if is_comparison(desc):
                     continue
+                if targets and all(t[0] == "returns" and t[1] == "Ok(None)" for t in targets):
+                    end_marker = k          # an arm of the marker dispatch that ends the value list
+                    continue
                 by_marker.setdefault(k, set()).update(targets)
     want = spec["decodings"]
     n = 0
     yields = {}
+    parser_units = {t[1] for targets in table.values() for t in targets if t[0] == "call"} | {"deserialization::read_next_value", "deserialization::parse_object_property", "deserialization::parse_object"}
+    global PARSER_INLINE
+    PARSER_INLINE = lambda cb, t: cb.pretty not in parser_units
     for mk, row in sorted(want.items(), key=lambda x: int(x[0])):
         k = int(mk)
         got = by_marker.get(k)
@@ -287,9 +374,9 @@ def check_decoder(env, rep, rule, spec):
     for k, b in sorted(yields.items()):
         row = want[str(k)]
         name = b.pretty.split("::")[-1]
-        exr = grammar.reads(env, b.key, all_local_calls=True)
+        exr = grammar.reads(env, b.key, all_local_calls=True, inline=True, inline_pred=PARSER_INLINE)
         oks = grammar.ok_paths(exr)
-        got = sorted({norm_read_path(p) for p in oks})
+        got = sorted({norm_read_path(p) for p in oks}) if name == "parse_bool" else canon_loops({norm_read_path(p, structure_only=True) for p in oks})
         allowed, required = DEC_EXPECT.get(name, (None, None))
         if allowed is None:
             # unknown parser name: compare against the specification row directly
@@ -314,7 +401,7 @@ def check_decoder(env, rep, rule, spec):
     if 8 in yields:
         b = yields[8]
         calls = {callee_name(t) for _, t in b.calls()}
-        oks = grammar.ok_paths(grammar.reads(env, b.key, all_local_calls=True))
+        oks = grammar.ok_paths(grammar.reads(env, b.key, all_local_calls=True, inline=True, inline_pred=PARSER_INLINE))
         rep.check(rule, "decoder:ecma-array", any("<parse_object>" in norm_read_path(p) for p in oks),
                   "ECMA array = u32be count then the object grammar", "ECMA array parser does not continue with the object grammar", b.span)
     # ---- Boolean interpretation (AMF0 2.3: zero is false, everything else is true)
@@ -327,7 +414,11 @@ def check_decoder(env, rep, rule, spec):
                 if not t[2]:
                     continue
                 _, lo, hi, excl = t[2][0]
-                if "Boolean(1)" in t[1]:
+                RD = r"(?:#1|call\(ReadBytesExt::read_u8\) as Ok\.0)"
+                if re.search(r"Boolean\(\(" + RD + r" Ne 0\)\)", t[1]) or re.search(r"Boolean\(!\(" + RD + r" Eq 0\)\)", t[1]) or re.search(r"Boolean\(\(" + RD + r" Gt 0\)\)", t[1]):
+                    # computed without a branch: true exactly for the non-zero bytes
+                    true_set, false_set = (1, 255, ()), (0, 0, ())
+                elif "Boolean(1)" in t[1]:
                     true_set = (lo, hi, excl) if true_set is None else (min(lo, true_set[0]), max(hi, true_set[1]), ())
                 elif "Boolean(0)" in t[1]:
                     false_set = (lo, hi, excl) if false_set is None else (min(lo, false_set[0]), max(hi, false_set[1]), ())
@@ -342,7 +433,7 @@ def check_decoder(env, rep, rule, spec):
         rep.anchor_missing(rule, "deserialization::parse_object_property")
     else:
         rep.fn(pp.key)
-        exr = grammar.reads(env, pp.key, all_local_calls=True)
+        exr = grammar.reads(env, pp.key, all_local_calls=True, inline=True, inline_pred=PARSER_INLINE)
         oks = grammar.ok_paths(exr)
         got = sorted({norm_read_path(p) for p in oks})
         some = [g for g in got if "<VALUE>" in g]
@@ -362,11 +453,11 @@ def strict_array_count(env, rep, rule, b):
     good = False
     why = "no loop over the declared count"
     for head in b.loops:
-        ok, w, end_sv = loops.iterator_driven(env, b, head)
-        if ok and end_sv is not None:
+        end_sv, w = loops.iteration_count(env, b, head)
+        if end_sv is not None:
             e = strip_casts(end_sv)
             good = isinstance(e, tuple) and e[0] == "proj" and isinstance(e[1], tuple) and e[1][0] == "call" and "read_u32" in (e[1][2] or "")
-            why = "loop bound is %s" % stable(end_sv)
+            why = "loop bound is %s (%s)" % (stable(end_sv), w)
     rep.check(rule, "decoder:strict-array-count", good, "the element loop runs up to the declared u32 count (%s)" % why,
               "the strict-array element loop is not bounded by the declared count itself: %s (the encoder writes the full element count, so elements beyond the bound would be decoded as separate values)" % why, b.span)
 
